@@ -10,7 +10,7 @@ disarmed (one-shot) although the operation is still queued on it.  If the output
 writable before its input side becomes readable the operation is never run again:
 it is "left waiting once everything the operation waits for is ready".
 
-Reproduced on the real code by harness/drv/src/bin/c02.rs (cases `splice*-1`, monitor `C02a:multi-fd-stranded`).
+Reproduced on the real code by harness/rt/src/bin/c02.rs (cases `splice*-1`, monitor `C02a:multi-fd-stranded`).
 -/
 import Compio.Model.PollDriver
 
